@@ -25,19 +25,19 @@ def sh(cmd, timeout=600, **kw):
     return subprocess.run(cmd, capture_output=True, text=True, timeout=timeout, **kw)
 
 
+PRLIMIT = shutil.which("prlimit") or "/usr/bin/prlimit"
+
+
 def run_limited(cmd, timeout=60, mem_gb=4, cpu_s=None, **kw):
     """subprocess.run for anything that executes the compiler under test or code it produced: own
     process group (the driver's cc1 child dies with it), address-space and CPU rlimits, so a
     non-terminating or memory-eating mutant cannot take the machine down.  Returns a
     CompletedProcess; on timeout returncode is -999."""
-    import resource
-
-    def pre():
-        os.setsid()
-        resource.setrlimit(resource.RLIMIT_AS, (int(mem_gb * (1 << 30)),) * 2)
-        c = int(cpu_s or timeout + 5)
-        resource.setrlimit(resource.RLIMIT_CPU, (c, c + 1))
-        resource.setrlimit(resource.RLIMIT_CORE, (0, 0))
+    # No preexec_fn: with one, Python must fork() instead of vfork()/posix_spawn(), which costs ~30 ms per
+    # process from a parent with a large heap (measured: 300 runs 9.4 s against 1.3 s).  The limits are set by
+    # prlimit(1), the session (= process group) by start_new_session.
+    c = int(cpu_s or timeout + 5)
+    cmd = [PRLIMIT, "--as=%d" % int(mem_gb * (1 << 30)), "--cpu=%d:%d" % (c, c + 1), "--core=0", "--"] + list(cmd)
     kw.setdefault("capture_output", True)
     kw.setdefault("text", True)
     if kw.get("capture_output"):
@@ -47,7 +47,7 @@ def run_limited(cmd, timeout=60, mem_gb=4, cpu_s=None, **kw):
     inp = kw.pop("input", None)
     if inp is not None:
         kw["stdin"] = subprocess.PIPE
-    p = subprocess.Popen(cmd, preexec_fn=pre, **kw)
+    p = subprocess.Popen(cmd, start_new_session=True, **kw)
     try:
         out, err = p.communicate(inp, timeout=timeout)
         return subprocess.CompletedProcess(cmd, p.returncode, out, err)
